@@ -53,10 +53,13 @@ def explore(rep, enabled, alpha_fn, tier, cfgs, depth_q, depth_t, dev_k_q, dev_k
     run = run or _run
     depth = depth_t if tier == "thorough" else depth_q
     k = dev_k_t if tier == "thorough" else dev_k_q
-    for cfg in cfgs:
+    for n_cfg, cfg in enumerate(cfgs):
         dt = cfg.get("dt", 200)
         A = alpha_fn(dt, cfg.get("rich", False))
         label = "bfs dt=%d %s" % (dt, cfg.get("name", ""))
+        if tier == "thorough" and n_cfg == 0 and not getattr(rep, "_dedup_validated", False):
+            rep._dedup_validated = True
+            validate_dedup(rep, run, alpha_fn(dt, False), 3 if len(alpha_fn(dt, False)) <= 32 else 2, cfg)
         bfs(rep, run, A, depth, cfg, label)
         if k:
             DA = (dev_alpha_fn or alpha_fn)(dt, False)[1:]
@@ -87,6 +90,38 @@ def explore(rep, enabled, alpha_fn, tier, cfgs, depth_q, depth_t, dev_k_q, dev_k
             if jobs:
                 rep.sample({"mode": "deviation", "history": jobs[len(jobs) // 2][0]})
     rep.bounds = dict(bfs_depth=depth, deviation_bound=k, horizon=horizon, alphabet=len(alpha_fn(200, False)), alphabet_rich=len(alpha_fn(200, True)), configs=[c.get("name") for c in cfgs])
+
+
+def validate_dedup(rep, run, A, depth, cfg):
+    """Canonicaliser check: exploring WITHOUT deduplication must reach exactly the same set of canonical
+    states (and violation keys) per level as exploring with it; otherwise the abstraction merges states with
+    different futures and nothing it reports can be trusted."""
+    full = [[]]
+    ded = [[]]
+    seen = set()
+    for level in range(1, depth + 1):
+        fj = [(h + [a], cfg) for h in full if not (h and terminal(h[-1])) for a in A]
+        fr = core.pmap(run, fj)
+        dj = [(h + [a], cfg) for h in ded if not (h and terminal(h[-1])) for a in A]
+        dr = core.pmap(run, dj)
+        # histories ending in a closure are terminal (no end-of-update canonical form is taken there)
+        fs = {r["canon"] for (h, _), r in zip(fj, fr) if not terminal(h[-1])}
+        ds = {r["canon"] for (h, _), r in zip(dj, dr) if not terminal(h[-1])}
+        fk = {tuple(v["key"]) for r in fr for v in r["violations"]}
+        dk = {tuple(v["key"]) for r in dr for v in r["violations"]}
+        if None in fs:
+            rep.extra.setdefault("dedup_validation", []).append(dict(config=cfg.get("name"), level=level, skipped="canonical form unavailable"))
+            return
+        if fs != ds or fk != dk:
+            raise core.HarnessError("canonical-state dedup is unsound at level %d of %s: %d states without dedup vs %d with; violation keys %d vs %d" % (level, cfg.get("name"), len(fs), len(ds), len(fk), len(dk)))
+        rep.extra.setdefault("dedup_validation", []).append(dict(config=cfg.get("name"), level=level, executions_without_dedup=len(fj), executions_with_dedup=len(dj), states=len(fs)))
+        full = [h for h, _ in fj]
+        nxt = []
+        for (h, _), r in zip(dj, dr):
+            if r["canon"] not in seen:
+                seen.add(r["canon"])
+                nxt.append(h)
+        ded = nxt
 
 
 def bfs(rep, run, A, depth, cfg, label):
